@@ -14,7 +14,7 @@ BASELINE = (
 
 checks, na = [], []
 # properties whose module exists but is temporarily not registered (reason)
-HOLD = {'C08': 'check being updated to follow fix commit cf0046b (Q_elements float32); not claimed until it passes again'}
+HOLD = {}
 for p in ALL:
     path = os.path.join(VERIF, 'harness', 'props', p.lower() + '.py')
     if not os.path.exists(path):
